@@ -788,7 +788,11 @@ def stage_targeted(ctx: Ctx):
            ('def f(a: (int  # ann\n          ) = 1): pass\n', 'body[0].args.args[0]', 'annotation'), ('def f(*a: (int  # ann\n           )): pass\n', 'body[0].args.vararg', 'annotation'),
            ('def g():\n    x = yield (v  # c\n               )\n', 'body[0].body[0].value', 'value'), ('try: pass\nexcept (E  # exc\n        ): pass\n', 'body[0].handlers[0]', 'type'),
            ('f"{(a  # v\n)!r:>{(w  # wd\n)}}"\n', 'body[0].value.values[0]', 'format_spec'), ('type T[U: (int  # bound\n          )] = U\n', 'body[0].type_params[0]', 'bound'),
-           ('match v:\n    case (x  # p\n          ) as y: pass\n', 'body[0].cases[0].pattern', 'pattern'), ('lambda a=(1  # d\n          ): (a  # body\n              )\n', 'body[0].value', 'args')]
+           ('match v:\n    case (x  # p\n          ) as y: pass\n', 'body[0].cases[0].pattern', 'pattern'), ('lambda a=(1  # d\n          ): (a  # body\n              )\n', 'body[0].value', 'args'),
+           # the starred parameters of a parameter list written one per line, each with its own comment
+           ('def f(\n    a,  # comment a\n    *args,  # comment args\n    b=1,  # comment b\n    **kw,  # comment kw\n): pass\n', 'body[0].args', 'vararg'),
+           ('def f(\n    a,  # comment a\n    *args,  # comment args\n    b=1,  # comment b\n    **kw,  # comment kw\n): pass\n', 'body[0].args', 'kwarg'),
+           ('def f(\n    a,  # comment a\n    **kw  # comment kw\n): pass\n', 'body[0].args', 'kwarg'), ('def f(\n    *args,  # comment args\n    b  # comment b\n): pass\n', 'body[0].args', 'vararg')]
     for src, path, fld in opt:
         try:
             probe = fst.FST(src, 'exec')
